@@ -184,6 +184,33 @@ def check(prog, run):
                     run.report(r, "%s:%s:set-iteration(%s)" % (D, f.qualname, ast.unparse(it)), f.where(n),
                                "changes are yielded while iterating the set `%s`: their order varies with PYTHONHASHSEED" % ast.unparse(it))
 
+    # ---- W1 safe-change predicates descend wrappers level by level
+    from .. import pairwrap
+    pairwrap.check(prog, run, "W1", ["py_gql.schema.differ"], 2)
+
+    # ---- P6 old and new members are paired by their GraphQL name
+    r6 = run.rule("P6", "wherever the differ pairs an old member with a new one (dictionary keys, subscripts and membership tests whose "
+                        "key is an attribute of a member variable) the key is the member's GraphQL `name`: pairing by any other "
+                        "attribute (an enum value's internal Python `value`, a python_name) misses renames and reports changes for "
+                        "structurally equal schemas built in Python", 5)
+    dmod = prog.module(D)
+    for f in [x for x in prog.all_funcs() if x.module is dmod]:
+        keys = []
+        for n in own_nodes(f.node):
+            if isinstance(n, ast.DictComp):
+                keys.append(n.key)
+            elif isinstance(n, ast.Subscript) and isinstance(n.ctx, ast.Load):
+                keys.append(n.slice)
+            elif isinstance(n, ast.Compare) and len(n.ops) == 1 and isinstance(n.ops[0], (ast.In, ast.NotIn)):
+                keys.append(n.left)
+        for k in keys:
+            if isinstance(k, ast.Attribute) and isinstance(k.value, ast.Name):
+                r6.instance("%s: key `%s`" % (f.qualname, ast.unparse(k)))
+                if k.attr != "name":
+                    run.report(r6, "%s:%s:paired-by(%s)" % (D, f.qualname, ast.unparse(k)), f.where(k),
+                               "old and new members are paired by `%s` instead of their name: a renamed member with the same %s is "
+                               "reported as unchanged, and equal names with different %s as removed and added" % (ast.unparse(k), k.attr, k.attr))
+
     # ---- P5 sibling default comparison
     r = run.rule("P5", "the three argument / input-field differs compare defaults with the same condition (presence changed, or "
                        "both present and values differ)", 3)
